@@ -67,12 +67,20 @@ func cliMakeSet(rng *rand.Rand, root string, k int, longLines bool) *cliSet {
 		s.files["vendor/minified.js"] = append(append([]byte("/*\n"), pick(lic)...), []byte("*/\nvar x="+strings.Repeat("a", 70000)+";\n")...)
 		s.files["vendor/blob_first.txt"] = append([]byte(strings.Repeat("QUJD", 20000)+"\n\n"), pick(lic)...)
 	}
+	// two headers in one source file: two adjacent matches of the same kind
+	s.files["src/double.go"] = []byte("// " + strings.Replace(strings.TrimRight(string(cliRead(hdr[0])), "\n"), "\n", "\n// ", -1) + "\n\n// ---\n\n// " +
+		strings.Replace(strings.TrimRight(string(cliRead(hdr[2])), "\n"), "\n", "\n// ", -1) + "\n\npackage double\n")
 	for rel, b := range s.files {
 		p := filepath.Join(s.dir, rel)
 		os.MkdirAll(filepath.Dir(p), 0755)
 		if err := ioutil.WriteFile(p, b, 0644); err != nil {
 			panic(err)
 		}
+	}
+	// a license that is reached through a symbolic link (to a file: a file like any other)
+	os.MkdirAll(filepath.Join(s.dir, "pkg"), 0755)
+	if os.Symlink(filepath.Join("..", "LICENSE"), filepath.Join(s.dir, "pkg", "COPYING")) == nil {
+		s.files["pkg/COPYING"] = s.files["LICENSE"]
 	}
 	return s
 }
